@@ -995,19 +995,56 @@ func ruleShape(c *Ctx) *RuleResult {
 	// S4b: comparator tokens produced ⊆ tokens the comparator clause handles
 	handled := map[string]bool{}
 	if cl := sw.clause("ASTComparator"); cl != nil {
-		for _, b := range c.A.Exec.Blocks {
-			for _, in := range b.Instrs {
-				bo, ok := in.(*ssa.BinOp)
-				if !ok || bo.Op != token.EQL || sw.clauseAt(instrPos(bo)) != cl {
-					continue
+		// token constants compared in the clause, or in the helpers it calls (the
+		// comparison may live in a function the clause hands the operator to)
+		note := func(bo *ssa.BinOp) {
+			for _, op := range []ssa.Value{bo.X, bo.Y} {
+				if mi, ok := op.(*ssa.MakeInterface); ok {
+					op = mi.X
 				}
-				for _, op := range []ssa.Value{bo.X, bo.Y} {
-					if mi, ok := op.(*ssa.MakeInterface); ok && types.Identical(mi.X.Type(), c.A.TokT) {
-						if k, ok := constInt(mi.X); ok {
-							handled[c.A.TokName[k]] = true
-						}
+				if types.Identical(op.Type(), c.A.TokT) {
+					if k, ok := constInt(op); ok {
+						handled[c.A.TokName[k]] = true
 					}
 				}
+			}
+		}
+		seenFn := map[*ssa.Function]bool{c.A.Exec: true}
+		var visit func(f *ssa.Function, depth int)
+		scan := func(in ssa.Instruction, depth int) {
+			switch in := in.(type) {
+			case *ssa.BinOp:
+				if in.Op == token.EQL {
+					note(in)
+				}
+			case *ssa.Call:
+				if depth < 4 {
+					if callee := staticCallee(in); callee != nil && callee.Pkg == c.SLib {
+						visit(callee, depth+1)
+					}
+				}
+			}
+		}
+		visit = func(f *ssa.Function, depth int) {
+			if seenFn[f] || f.Blocks == nil {
+				return
+			}
+			seenFn[f] = true
+			for _, b := range f.Blocks {
+				for _, in := range b.Instrs {
+					scan(in, depth)
+				}
+			}
+			for _, an := range f.AnonFuncs {
+				visit(an, depth+1)
+			}
+		}
+		for _, b := range c.A.Exec.Blocks {
+			for _, in := range b.Instrs {
+				if sw.clauseAt(instrPos(in)) != cl {
+					continue
+				}
+				scan(in, 0)
 			}
 		}
 	}
